@@ -44,7 +44,8 @@ let grammar_obs (img_hex : string) (spec : string) : string =
     let more = rep nm (fun () -> let c = num () in let s = num () in (c, s)) in
     let xh = match next () with
       | "N" -> None
-      | "X" -> let n = byt () in let e = byt () in let gp = byt () in Some ((n, e), gp)
+      | "X" -> let pre = byt () in let n = byt () in let e = byt () in let gp = byt () in
+        Some (((pre, n), e), gp)
       | t -> raise (Bad ("ext tag " ^ t)) in
     let n = cnt () in let files = rep n file in
     let used = List.length (flay (List.map emit_f files)) in
@@ -65,4 +66,10 @@ let grammar_obs (img_hex : string) (spec : string) : string =
 let eval_c01 fn args : string option =
   match fn, args with
   | "grammar", [img; spec] -> ucs_inexact := false; Some (grammar_obs img spec)
+  | "member_bytes", [img] ->
+    (* the byte-level decision procedure of theorem C01_save_identity_bytes *)
+    ucs_inexact := false; table_miss := false;
+    let r = in_grammar dec u2s s2u nvar depth (bytes_of_hex img) in
+    if !ucs_inexact then None
+    else Some (if r then "member" else "not-member")
   | _ -> eval_ffs fn args
